@@ -20,14 +20,15 @@ pub struct Case {
     pub rnd: Seed32,
     /// 0 generated, 1 serialise->deserialise
     pub sk_prov: u8,
-    /// 0 generated, 1 serialise->deserialise, 2 derived from generated sk, 3 derived from round-tripped sk
+    /// 0 generated, 1 serialise->deserialise, 2 derived from generated sk, 3 derived from round-tripped sk,
+    /// 4 `clone()` of the generated key, 5 another key's object overwritten with `clone_from(&generated)`
     pub pk_prov: u8,
     /// classify with the reference signer (costs a reference signature)
     pub classify: bool,
 }
 
 fn strategy(max_msg: u32) -> impl Strategy<Value = Case> {
-    (0u8..3, gen::seed32(), gen::message(max_msg), gen::context(), gen::mode(), gen::seed32(), 0u8..2, 0u8..4).prop_map(
+    (0u8..3, gen::seed32(), gen::message(max_msg), gen::context(), gen::mode(), gen::seed32(), 0u8..2, 0u8..6).prop_map(
         |(set, key, msg, ctx, mode, rnd, sk_prov, pk_prov)| Case { set, key, msg, ctx, mode, rnd, sk_prov, pk_prov, classify: true },
     )
 }
@@ -52,18 +53,26 @@ pub fn check(c: &Case, st: &mut Stats) -> CheckResult {
         Ok(Err(e)) => fail!("sign:err", "set {} mode {}: signing failed with ctx of {} bytes: {e}", p.id, mode.tag(), ctx.len()),
         Err(pi) => return Err(Fail::panic("sign", &pi)),
     };
-    let pk: Box<dyn PkObj> = match c.pk_prov % 4 {
+    let pk: Box<dyn PkObj> = match c.pk_prov % 6 {
         0 => pk_gen,
         1 => g_pk(lib, &g("pk.into_bytes", || pk_gen.to_bytes())?)?,
         2 => g("get_public_key", || sk_gen.public_key())?,
-        _ => g("get_public_key", || sk_rt.public_key())?,
+        3 => g("get_public_key", || sk_rt.public_key())?,
+        4 => g("pk.clone", || pk_gen.clone_box())?,
+        _ => {
+            let mut other_xi = xi;
+            other_xi[0] ^= 0xA5;
+            let (mut other, _) = g("keygen_from_seed", || lib.keygen_from_seed(&other_xi))?;
+            g("pk.clone_from", || other.assign_from(&*pk_gen))?;
+            other
+        }
     };
     let ok = g_verify(&*pk, &m, &sig, &ctx, mode)?;
     st.eval();
-    let mut nontrivial = ctx.len() >= 254 || m.is_empty() || m.len() > 136 || c.sk_prov % 2 != 0 || c.pk_prov % 4 != 0 || mode != Mode::Pure;
+    let mut nontrivial = ctx.len() >= 254 || m.is_empty() || m.len() > 136 || c.sk_prov % 2 != 0 || c.pk_prov % 6 != 0 || mode != Mode::Pure;
     st.class(&format!("mode={}", mode.tag()));
     st.class(&format!("sk_prov={}", c.sk_prov % 2));
-    st.class(&format!("pk_prov={}", c.pk_prov % 4));
+    st.class(&format!("pk_prov={}", c.pk_prov % 6));
     if ctx.len() >= 254 {
         st.class("ctx>=254");
     }
@@ -98,13 +107,13 @@ pub fn check(c: &Case, st: &mut Stats) -> CheckResult {
     }
     st.sample(&format!("set{}:{}", p.id, mode.tag()), || {
         json!({"set": p.id, "seed": hex::encode(xi), "msg_len": m.len(), "ctx_len": ctx.len(), "mode": mode.tag(),
-               "rnd": hex::encode(rnd), "sk_prov": c.sk_prov % 2, "pk_prov": c.pk_prov % 4, "verified": ok})
+               "rnd": hex::encode(rnd), "sk_prov": c.sk_prov % 2, "pk_prov": c.pk_prov % 6, "verified": ok})
     });
     if !ok {
         fail!(
             format!("verify_false:set{}:{}", p.id, mode.tag()),
             "set {} mode {}: honest signature does not verify (sk_prov {}, pk_prov {}, |M|={}, |ctx|={})",
-            p.id, mode.tag(), c.sk_prov % 2, c.pk_prov % 4, m.len(), ctx.len()
+            p.id, mode.tag(), c.sk_prov % 2, c.pk_prov % 6, m.len(), ctx.len()
         );
     }
     Ok(())
@@ -152,7 +161,7 @@ fn screened(ctx: &Ctx, rep: &mut Report) {
                 let mut c = c;
                 c.classify = true;
                 // all provenances on the rare triple
-                for prov in 0..4u8 {
+                for prov in 0..6u8 {
                     c.pk_prov = prov;
                     c.sk_prov = prov & 1;
                     check(&c, st)?;
@@ -179,6 +188,45 @@ fn screened_case(seed: u64, set: u8, i: u64) -> Case {
     }
 }
 
+/// EVERY message length 0..=N (contiguous, like C07's context lengths): a signer or verifier that absorbs the
+/// message in pieces fails at isolated lengths (one value per piece size and header length), which no sample of
+/// "interesting" lengths is guaranteed to contain. One key per set; sign + verify only (no reference).
+fn every_message_length(ctx: &Ctx, rep: &mut Report) {
+    let n = u64::from(ctx.n(140_000, 300_000)) + 1;
+    let sets: &[usize] = if ctx.quick() { &[0] } else { &[0, 1, 2] };
+    let data = gen::prg_bytes(ctx.seed, "c01-lens", n as usize + 16);
+    for &si in sets {
+        let lib = libs()[si];
+        let p = lib.p();
+        let sub = format!("every_message_length_{}", p.id);
+        let Ok((pk, sk)) = crate::engine::guarded(|| lib.keygen_from_seed(&[0x17; 32])) else { continue };
+        run_sweep(
+            rep,
+            &sub,
+            n,
+            true,
+            |len, st| {
+                let m = &data[(len % 7) as usize..(len % 7 + len) as usize];
+                let cx = &data[..(len % 5) as usize];
+                let mode = if len % 8 == 0 { gen::mode_of(1 + ((len / 8) % 3) as u8) } else { Mode::Pure };
+                let mut rng = TestRng::replay(&[(len % 251) as u8; 32]);
+                st.eval();
+                st.nontrivial_enumerated += 1;
+                let sig = match g_sign(&*sk, &mut rng, m, cx, mode) {
+                    Ok(Ok(s)) => s,
+                    Ok(Err(e)) => fail!(format!("sign:err:len_sweep:set{}", p.id), "set {} {}: signing a message of {len} bytes failed: {e}", p.id, mode.tag()),
+                    Err(pi) => return Err(Fail::panic("sign", &pi)),
+                };
+                if !g_verify(&*pk, m, &sig, cx, mode)? {
+                    fail!(format!("verify_false:len_sweep:set{}:{}", p.id, mode.tag()), "set {} {}: honest signature over a message of exactly {len} bytes (|ctx| = {}) does not verify", p.id, mode.tag(), cx.len());
+                }
+                Ok(())
+            },
+            |len| json!({"set": p.id, "msg_len": len, "ctx_len": len % 5}),
+        );
+    }
+}
+
 pub fn run(ctx: &Ctx, rep: &mut Report) {
     rep.assume("the verdict oracle is the library's own verifier on the library's own signature (the property itself); the reference signer is used only to classify cases (loop iterations, hint weight)");
     rep.assume(ASSUME_REF);
@@ -189,12 +237,13 @@ pub fn run(ctx: &Ctx, rep: &mut Report) {
     let mut ext: Vec<Case> = Vec::new();
     for e in gen::sig_corpus() {
         let (key, msg, rnd) = gen::xofsearch::sig_tuple_specs(e.index);
-        for prov in 0..4u8 {
+        for prov in 0..6u8 {
             ext.push(Case { set: match e.set { 44 => 0, 65 => 1, _ => 2 }, key: key.clone(), msg: msg.clone(), ctx: BytesSpec::empty(), mode: 0, rnd: rnd.clone(), sk_prov: prov & 1, pk_prov: prov, classify: false });
         }
-        rep.stats("sample_in_ball_extreme_signatures").maximum(&format!("max_consecutive_rejections_set{}", e.set), i64::from(e.sib_max_run));
+        rep.stats("extreme_signatures").maximum(&format!("max_consecutive_rejections_set{}", e.set), i64::from(e.sib_max_run));
+        rep.stats("extreme_signatures").maximum(&format!("max_loop_iterations_set{}", e.set), i64::from(e.iterations));
     }
-    crate::engine::run_list(rep, "sample_in_ball_extreme_signatures", &ext, check);
+    crate::engine::run_list(rep, "extreme_signatures", &ext, check);
     // very long messages (lengths around 2^16, 2^17, 2^20, 2^24), every mode and provenance pair
     let mut long: Vec<Case> = Vec::new();
     for (li, len) in crate::props::c03::LONG_MSG_LENS.iter().enumerate() {
@@ -207,10 +256,12 @@ pub fn run(ctx: &Ctx, rep: &mut Report) {
         }
     }
     crate::engine::run_list(rep, "long_messages", &long, check);
+    every_message_length(ctx, rep);
+    crate::props::c03::cold_start(ctx, rep, &["own signature does not verify", "panic"]);
 }
 
 pub fn replay(_ctx: &Ctx, sub: &str, case: &Value) -> Option<CheckResult> {
-    if sub == "generated" || sub.starts_with("screened_") || sub == "sample_in_ball_extreme_signatures" || sub == "long_messages" {
+    if sub == "generated" || sub.starts_with("screened_") || sub == "extreme_signatures" || sub == "long_messages" {
         let c: Case = from_case(case);
         let mut st = Stats::default();
         return Some(check(&c, &mut st));
